@@ -134,7 +134,8 @@ func (w *baWorld) exec(line string) string {
 		w.reset(w.r)
 		w.lines = []string{line}
 		return "ok"
-	case "l1blk": // l1blk <num> tok*  tok = b:<seed> | i:<mcount> | v:<rollup id>:<lcount or seed>
+	case "l1blk", "l1blk!": // l1blk! = the row of the block's LAST bridge fails to be stored once (all its leaves are already in the frontier), then the driver's retry
+	// l1blk <num> tok*  tok = b:<seed> | i:<mcount> | v:<rollup id>:<lcount or seed>
 		bn := u(ws[1])
 		hash := common.BigToHash(new(big.Int).SetUint64(bn + 1000))
 		bb := sync.Block{Num: bn, Hash: hash}
@@ -169,6 +170,21 @@ func (w *baWorld) exec(line string) string {
 				ib.Events = append(ib.Events, l1infotreesync.Event{VerifyBatches: &l1infotreesync.VerifyBatches{
 					BlockPosition: uint64(i), RollupID: rid, NumBatch: bn, StateRoot: common.BigToHash(big.NewInt(int64(bn))), ExitRoot: er}})
 			}
+		}
+		if ws[0] == "l1blk!" && len(bb.Events) > 0 {
+			last := bb.Events[len(bb.Events)-1].(bridgesync.Event).Bridge.DepositCount
+			ctl, err := openCtl(filepath.Join(w.dir, "l1b.sqlite"))
+			must(err)
+			_, err = ctl.Exec(fmt.Sprintf(`CREATE TRIGGER verif_l1f BEFORE INSERT ON bridge WHEN NEW.deposit_count = %d BEGIN SELECT RAISE(ABORT,'verif fault'); END;`, last))
+			must(err)
+			err1 := w.l1b.ProcessBlock(ctx, bb)
+			_, err = ctl.Exec(`DROP TRIGGER verif_l1f`)
+			must(err)
+			ctl.Close()
+			if err1 == nil {
+				w.fail("[C07] a storage fault on a bridge row of the L1 bridge syncer was not reported")
+			}
+			w.r.Count("branch:l1-bridge-block-faulted-then-retried")
 		}
 		if err := w.l1b.ProcessBlock(ctx, bb); err != nil {
 			panic(fmt.Sprintf("harness: L1 bridge block rejected: %v (%s)", err, line))
@@ -380,7 +396,11 @@ func baGen(r *Run, rng *Rng) {
 					lastMc = mc
 					toks = add(toks, info(mc))
 				case x < 90:
-					if l2n > lastLc {
+					if lastLc > 0 && rng.Chance(25) {
+						// the rollup is verified again with the SAME local exit root (no new batch content): nothing to record
+						toks = append(toks, fmt.Sprintf("v:%d:%d", baNet, lastLc))
+						r.Count("branch:re-verification-unchanged")
+					} else if l2n > lastLc {
 						lastLc = lastLc + 1 + rng.Intn(l2n-lastLc)
 						toks = append(toks, fmt.Sprintf("v:%d:%d", baNet, lastLc))
 						rerV++
@@ -399,7 +419,17 @@ func baGen(r *Run, rng *Rng) {
 			if len(toks) == 0 {
 				continue
 			}
-			do(fmt.Sprintf("l1blk %d %s", l1, strings.Join(toks, " ")))
+			nb := 0
+			for _, t := range toks {
+				if strings.HasPrefix(t, "b:") {
+					nb++
+				}
+			}
+			if nb >= 2 && rng.Chance(50) {
+				do(fmt.Sprintf("l1blk! %d %s", l1, strings.Join(toks, " ")))
+			} else {
+				do(fmt.Sprintf("l1blk %d %s", l1, strings.Join(toks, " ")))
+			}
 			if st%3 == 2 || st == steps-1 {
 				// ask for every deposit (and one beyond) on both networks; for a few covering leaves ask for the proof
 				for dc := 0; dc <= l1n; dc++ {
